@@ -1,6 +1,8 @@
 #!/bin/bash
 # usage: tools_confirm_mutant.sh <scratch worktree> <mutant dir with patch.diff + demo.py>
 # Confirms in the scratch worktree: patch applies; demo fails with it and passes without; full suite passes with it.
+# (tests/test_contrib_signaling.py binds TCP port 1234: if another suite run overlaps, its two tcp tests fail; when
+#  those are the only failures that file is repeated alone.)
 WT="$1"; M="$2"
 cd "$WT" || exit 2
 git checkout -q -- src tests 2>/dev/null
@@ -9,6 +11,17 @@ git apply --check "$M/patch.diff" || { echo "RESULT patch-does-not-apply"; exit 
 PYTHONPATH=$WT/src timeout 120 /venv/bin/python "$M/demo.py" >/dev/null 2>&1; base=$?
 git apply "$M/patch.diff"
 PYTHONPATH=$WT/src timeout 120 /venv/bin/python "$M/demo.py" >/dev/null 2>&1; mut=$?
-PYTHONPATH=$WT/src timeout 1200 /venv/bin/python -m pytest -q -p no:cacheprovider --timeout=900 -x 2>&1 | tail -1 > /tmp/confirm.$$.log; suite=$(cat /tmp/confirm.$$.log); rm -f /tmp/confirm.$$.log
+L=/tmp/confirm.$$.log
+PYTHONPATH=$WT/src timeout 1500 /venv/bin/python -m pytest -q -p no:cacheprovider --timeout=900 -rf > $L 2>&1
+suite=$(tail -1 $L)
+failed=$(grep "^FAILED" $L | grep -v "test_contrib_signaling.py" | head -3 | tr '\n' ' ')
+if grep -q "^FAILED" $L && [ -z "$failed" ]; then
+  for i in 1 2 3; do
+    sleep $((RANDOM % 20))
+    r=$(PYTHONPATH=$WT/src timeout 300 /venv/bin/python -m pytest -q -p no:cacheprovider tests/test_contrib_signaling.py 2>&1 | tail -1)
+    case "$r" in *failed*) ;; *passed*) suite="$suite; only test_contrib_signaling tcp tests failed (port 1234 in use by another run), alone: $r"; break;; esac
+  done
+fi
+rm -f $L
 git checkout -q -- src tests
-echo "RESULT demo_unchanged_exit=$base demo_mutant_exit=$mut suite_with_mutant='$suite'"
+echo "RESULT demo_unchanged_exit=$base demo_mutant_exit=$mut suite_with_mutant='$suite' other_failures='$failed'"
